@@ -275,6 +275,13 @@ def handle : List String → Option String
     if ts != [] then none else
     let (v, e) := parseDimension opsF n u par
     pure s!"{h v} {b01 e}"
+  | "SPEC" :: ts => do
+    let (sels, ts) ← counted (counted selNode) ts
+    let (elems, ts) ← counted pelem ts
+    if ts != [] then none else
+    pure (match ruleSpec (⟨sels, []⟩ : Rule Float) elems.reverse with
+      | none => "-1"
+      | some n => toString n)
   | "SEL" :: ts => do
     let (sel, ts) ← counted selNode ts
     let (elems, ts) ← counted pelem ts
